@@ -20,8 +20,8 @@ CLAIMED = {
 
 CLAIMED.update({
     "C01": dict(
-        text="Proved in Coq over exact rationals: the uniform split computed by the model's average_port_pressure is a feasible fractional assignment with slack 0, and every feasible split is non-negative, supported on admissible ports, adds up to the micro-ops' cycles and satisfies Hall's condition for every port set; proved for ANY numeric instance (binary64 included), any kernel context and any number of passes: balancing changes only cells of ports the micro-op may use (support) and keeps lengths; totals ignore zero-throughput lines; on a second bounded family (3192 kernels of length <= 2 over all forms with one or two 1-cycle micro-ops on subsets of 3 ports, complete for its shape) the bit-exact binary64 model is exactly feasible under uniform scheduling and, after ONE pass, satisfies non-negativity / support / total / Hall for every port set within 0.005 per (micro-op, port) pair (finite sweep, exact comparisons; the family is replayed on the implementation). The second CLI pass is refuted on the bit-exact model (witness replayed on the code = known finding; 798 of the 3192 family kernels). For an instruction with a SINGLE micro-op (any cycle count, any port subset, any kernel context, any junk in the differences vector) whose uniform share exceeds 0.005, the balancing loop over exact rationals is proved to preserve the row total exactly, keep every admissible cell >= 0 and leave every other cell untouched, so the result is feasible with slack 0 (Proofs/BalanceSingle.v: rounding characterisation of round(x,2), per-rule and per-step invariants, induction over the loop). The granular Hall bound for ONE optimised pass of multi-micro-op instructions is not proved in general; it is decided by the bit-exact correspondence (binary64 model = implementation on every pressure cell, synthetic port models + shipped kernels x models) plus the exact-fraction Hall/total/support oracle on the implementation's outputs.",
-        note="Trusted: Coq kernel, vm_compute, primitive floats/ints; Model/Num.v's CPython round()/sum() algorithms (validated against CPython each run); the hand model Model/Pressure.v is tied to the code only by differential correspondence; exact-arithmetic theorems transfer to doubles up to rounding. Partial: one-pass feasibility within 0.005 per (micro-op, port) pair is proved for single-micro-op instructions over Q and on the bounded family for binary64; for arbitrary multi-micro-op instructions it is checked, not proved.",
+        text="average_port_pressure, get_throughput_sum, _to_list and _itemsetter are REGENERATED from the current source on every run (tools/gen_c01.py, fail-closed) and proved extensionally equal to the hand model for every numeric instance and every input, error cases included (PropsGen/C01gen.v); the uniform-feasibility and totals theorems are restated for the regenerated code. Proved in Coq over exact rationals: the uniform split computed by the model's average_port_pressure is a feasible fractional assignment with slack 0, and every feasible split is non-negative, supported on admissible ports, adds up to the micro-ops' cycles and satisfies Hall's condition for every port set; proved for ANY numeric instance (binary64 included), any kernel context and any number of passes: balancing changes only cells of ports the micro-op may use (support) and keeps lengths; totals ignore zero-throughput lines; on a second bounded family (3192 kernels of length <= 2 over all forms with one or two 1-cycle micro-ops on subsets of 3 ports, complete for its shape) the bit-exact binary64 model is exactly feasible under uniform scheduling and, after ONE pass, satisfies non-negativity / support / total / Hall for every port set within 0.005 per (micro-op, port) pair (finite sweep, exact comparisons; the family is replayed on the implementation). The second CLI pass is refuted on the bit-exact model (witness replayed on the code = known finding; 798 of the 3192 family kernels). For an instruction with a SINGLE micro-op (any cycle count, any port subset, any kernel context, any junk in the differences vector) whose uniform share exceeds 0.005, the balancing loop over exact rationals is proved to preserve the row total exactly, keep every admissible cell >= 0 and leave every other cell untouched, so the result is feasible with slack 0 (Proofs/BalanceSingle.v: rounding characterisation of round(x,2), per-rule and per-step invariants, induction over the loop). The granular Hall bound for ONE optimised pass of multi-micro-op instructions is not proved in general; it is decided by the bit-exact correspondence (binary64 model = implementation on every pressure cell, synthetic port models + shipped kernels x models) plus the exact-fraction Hall/total/support oracle on the implementation's outputs.",
+        note="Trusted: Coq kernel, vm_compute, primitive floats/ints; Model/Num.v's CPython round()/sum() algorithms (validated against CPython each run); tools/gen_c01.py and its prelude (cross-checked bit for bit against CPython on 480/4800 inputs per run); the hand model Model/Pressure.v is tied by correspondence only for assign_optimal_throughput (the balancer), its other functions by translation + equality proofs; data representation: a str port collection is its characters, dict-form port_uops has keys 0..n-1 in order, None throughput counts as non-zero; exact-arithmetic theorems transfer to doubles up to rounding. Partial: one-pass feasibility within 0.005 per (micro-op, port) pair is proved for single-micro-op instructions over Q and on the bounded family for binary64; for arbitrary multi-micro-op instructions it is checked, not proved.",
         technique="Coq proofs (feasible-flow algebra over Q, frame induction over the balancer generic in NumOps) + bit-exact differential correspondence of a binary64 Gallina model",
         ref="DESIGN.md C01"),
     "C02": dict(
@@ -63,8 +63,8 @@ CLAIMED.update({
         technique="Coq proof by induction over the instruction list (scan = RAW) + bit-exact differential correspondence of the dependency graph",
         ref="DESIGN.md C03"),
     "C04": dict(
-        text="Proved in Coq over exact rationals: the dynamic programme cp_opt is an upper bound of the length (edge latencies + leading load stage once + latency of the last instruction) of EVERY dependency chain of the kernel graph, hence never below any single latency. The implementation's critical path is tied to it by a certificate evaluated in Coq on every case: reported lines are linked by edges of the model graph, each CP cell is the edge latency (last: the instruction latency), and the cells add up to cp_opt; an independent brute-force enumeration of all chains of the implementation's own graph is the search. The shipped defect (path chosen by edge latencies only) was fixed in /repo.",
-        note="Trusted: Coq kernel; networkx dag_longest_path is not modelled (only its result is certified); attainment of cp_opt is established per case by the certificate, not by a general theorem.",
+        text="Proved in Coq over exact rationals: the dynamic programme cp_opt is an upper bound of the length (edge latencies + leading load stage once + latency of the last instruction) of EVERY dependency chain of the kernel graph, hence never below any single latency. The implementation's critical path is tied to it by a certificate evaluated in Coq on every case: reported lines are linked by edges of the model graph, each CP cell is the edge latency (last: the instruction latency), and the cells add up to cp_opt; a passed certificate is PROVED (C04_certificate_sound, _kernel_latencies, _checked; Proofs/CritCert.v) to imply that the reported lines are a dependency chain, every cell is the chain-semantics weight (edge latency; first: load stage + edge; last: instruction latency), the cells add up to cp_opt and the reported path is a longest chain; conversely every longest chain passes (C04_longest_chain_has_certificate), so networkx tie-breaking cannot raise a false alarm; a certificate whose sum is below some chain is rejected (C04_certificate_rejects_non_maximal). An independent brute-force enumeration of all chains of the implementation's own graph is the search. The shipped defect (path chosen by edge latencies only) was fixed in /repo.",
+        note="Trusted: Coq kernel; networkx dag_longest_path is not modelled and need not be (its result is certified, soundness of the certificate is a theorem); the theorems are over Q, the shards evaluate the same definitions over binary64.",
         technique="Coq proof (DP upper bound by induction over program order) + per-case certificate checking in Coq",
         ref="DESIGN.md C04"),
     "C05": dict(
@@ -73,7 +73,7 @@ CLAIMED.update({
         technique="Coq proofs (path enumeration soundness/completeness, de-duplication algebra) + bit-exact correspondence + independent cycle enumeration",
         ref="DESIGN.md C05"),
     "C06": dict(
-        text="Proved in Coq against a concrete register-file semantics: whenever the model links a load to an earlier store, both addresses are equal for every register file, given that the tracked changes describe the intervening instructions; one tracked increment/decrement/copy keeps that description valid (this proof attempt exposed a genuine unsoundness for copies of copies, fixed in /repo); shape mismatch, symbolic or different displacement give no link; a later store to the operand ends the search. The model is ISA-independent (prefix+name). Tied to KernelDG bit for bit on generated store/load kernels of both ISAs on shipped models; an independent symbolic tracker decides which loads provably alias.",
+        text="Proved in Coq against a concrete register-file semantics: whenever the model links a load to an earlier store, both addresses are equal for every register file, given that the tracked changes describe the intervening instructions; one tracked increment/decrement/copy keeps that description valid (this proof attempt exposed a genuine unsoundness for copies of copies, fixed in /repo); shape mismatch, symbolic or different displacement give no link; a later store to the operand ends the search and nothing else does (C06_search_continues); a pre-indexed load reads from its already bumped base (addr_load; C06_memdep_complete_preindexed_load). Four further defects of the write-back bookkeeping were found and fixed in /repo (post-indexed access made its base unknown; the storing instruction's own post-index bump was ignored; a pre-indexed load's offset was counted twice; the search of a write-back store was cut at the next base write) and the ISA data no longer declares constant changes for register addends. The model is ISA-independent (prefix+name). Tied to KernelDG bit for bit on generated store/load kernels of both ISAs on shipped models; an independent symbolic tracker decides which loads provably alias, incl. an AArch64 write-back family (pre-/post-indexed store, accesses in between, load).",
         note="Trusted: Coq kernel; get_reg_changes (exec of the ISA DB's operation strings) is taken from the implementation per line, its results are checked by the oracle only; registers are identified by name (architectural aliasing of address registers is outside the tracking).",
         technique="Coq soundness proof w.r.t. a concrete address semantics + bit-exact correspondence + independent symbolic alias oracle",
         ref="DESIGN.md C06"),
